@@ -148,6 +148,7 @@ class SymH:
         self.proxy = proxy
         self.proxy_module = None
         self._fn = {}
+        self._fresh_counts = {}
 
     def is_symbolic(self):
         return True
@@ -169,7 +170,13 @@ class SymH:
         return self._declare(name, v)
 
     def fresh_int(self, base="g"):
-        return self.e.newint(base)
+        """non-deterministic int chosen by an abstract component; recorded as an input (named by occurrence) so that a
+        counter-model can be replayed natively"""
+        n = self._fresh_counts.get(base, 0)
+        self._fresh_counts[base] = n + 1
+        name = f"fresh:{base}#{n}"
+        v = SInt(z3.Int(f"in!{name}"))
+        return self._declare(name, v)
 
     def bool(self, name):
         return self._declare(name, SBool(z3.Bool(f"in!{name}")))
@@ -522,6 +529,7 @@ class NativeH:
         self.unused = set(self.inputs)
         self._events = []
         self._set_globals = []
+        self._fresh_counts = {}
         self.assume_failed = False
 
     def is_symbolic(self):
@@ -541,7 +549,13 @@ class NativeH:
         return v
 
     def fresh_int(self, base="g"):
-        raise AssumeFailed("fresh ghost value has no native counterpart")
+        n = self._fresh_counts.get(base, 0)
+        self._fresh_counts[base] = n + 1
+        name = f"fresh:{base}#{n}"
+        if name not in self.inputs:
+            raise AssumeFailed(f"no model value for {name}")
+        self.unused.discard(name)
+        return int(self.inputs[name])
 
     def bool(self, name):
         return bool(self._get(name))
